@@ -170,3 +170,37 @@ impl VHeap {
         self.heap.as_slice().to_vec()
     }
 }
+
+// ---------------------------------------------------------------------------
+// Allocation-failure injector: consulted by `InnerHeap::grow` on this thread.
+
+thread_local! {
+    static GROWTH_REQUESTS: std::cell::Cell<u64> = const { std::cell::Cell::new(0) };
+    static GROWTH_FAIL_FROM: std::cell::Cell<u64> = const { std::cell::Cell::new(u64::MAX) };
+    static GROWTH_FAIL_COUNT: std::cell::Cell<u64> = const { std::cell::Cell::new(0) };
+}
+
+/// From now on count heap-growth requests of this thread from zero; requests number
+/// `from .. from + count` report failure (as if the allocator returned null).
+/// `count == 0` switches the injector off.
+pub fn set_heap_growth_failure(from: u64, count: u64) {
+    GROWTH_REQUESTS.with(|c| c.set(0));
+    GROWTH_FAIL_FROM.with(|c| c.set(if count == 0 { u64::MAX } else { from }));
+    GROWTH_FAIL_COUNT.with(|c| c.set(count));
+}
+
+/// The number of heap-growth requests of this thread since the last `set_heap_growth_failure`.
+pub fn heap_growth_requests() -> u64 {
+    GROWTH_REQUESTS.with(|c| c.get())
+}
+
+pub(crate) fn heap_growth_should_fail() -> bool {
+    let k = GROWTH_REQUESTS.with(|c| {
+        let k = c.get();
+        c.set(k + 1);
+        k
+    });
+    let from = GROWTH_FAIL_FROM.with(|c| c.get());
+    let count = GROWTH_FAIL_COUNT.with(|c| c.get());
+    from != u64::MAX && k >= from && k - from < count
+}
